@@ -18,7 +18,7 @@ ID = 'C06'
 
 BOUNDS = {
     'quick': dict(LQ=5, LF=3, M=4, N=2, MUT=1),
-    'thorough': dict(LQ=6, LF=4, M=5, N=3, MUT=2),
+    'thorough': dict(LQ=6, LF=4, M=5, N=2, MUT=2),
 }
 
 
